@@ -1085,6 +1085,13 @@ impl MutLayout for DynLayout {
         strides: &[usize],
         overlap: OverlapPolicy,
     ) -> Result<Self, FromDataError> {
+        // `DynLayout` stores the shape and strides in one array, with the
+        // dimension count implied by its length.
+        assert_eq!(
+            shape.len(),
+            strides.len(),
+            "shape and strides must have the same length"
+        );
         let mut shape_and_strides = SmallVec::with_capacity(shape.len() + strides.len());
         shape_and_strides.extend_from_slice(shape);
         shape_and_strides.extend_from_slice(strides);
